@@ -303,9 +303,42 @@ func deepCopy(n ast.Node) ast.Node {
 		return el
 	case *ast.IncDecStmt:
 		return &ast.IncDecStmt{X: deepCopy(n.X).(ast.Expr), Tok: n.Tok}
+	case *ast.RangeStmt:
+		r := &ast.RangeStmt{Tok: n.Tok, X: deepCopy(n.X).(ast.Expr), Body: deepCopy(n.Body).(*ast.BlockStmt)}
+		if n.Key != nil {
+			r.Key = deepCopy(n.Key).(ast.Expr)
+		}
+		if n.Value != nil {
+			r.Value = deepCopy(n.Value).(ast.Expr)
+		}
+		return r
+	case *ast.ForStmt:
+		f := &ast.ForStmt{Body: deepCopy(n.Body).(*ast.BlockStmt)}
+		if n.Init != nil {
+			f.Init = deepCopy(n.Init).(ast.Stmt)
+		}
+		if n.Cond != nil {
+			f.Cond = deepCopy(n.Cond).(ast.Expr)
+		}
+		if n.Post != nil {
+			f.Post = deepCopy(n.Post).(ast.Stmt)
+		}
+		return f
+	case *ast.TypeSwitchStmt:
+		t := &ast.TypeSwitchStmt{Assign: deepCopy(n.Assign).(ast.Stmt), Body: deepCopy(n.Body).(*ast.BlockStmt)}
+		if n.Init != nil {
+			t.Init = deepCopy(n.Init).(ast.Stmt)
+		}
+		return t
+	case *ast.BranchStmt:
+		return &ast.BranchStmt{Tok: n.Tok}
 	default:
 		// unknown kinds are rendered by name so that a comparison on them fails loudly
-		return &ast.Ident{Name: fmt.Sprintf("«%T»", n)}
+		id := &ast.Ident{Name: fmt.Sprintf("«%T»", n)}
+		if _, isStmt := n.(ast.Stmt); isStmt {
+			return &ast.ExprStmt{X: id}
+		}
+		return id
 	}
 }
 
